@@ -10,7 +10,8 @@ SPEC = {
              'that is down are flagged, every failure must report the part in process once to the three shutdown '
              'callbacks (in registration order) and in the failure log and keep a finished part, callback rounds '
              'must match state changes, undisturbed default work orders must keep the target down for exactly '
-             'their duration; a case is one model; non-trivial = a failure with a part in process and a restore'),
+             'their duration; at every clock advance a finished part that a processor kept through its down time must not '
+             'still sit in the (restored) processor while a downstream neighbour accepts it on a deep copy; a case is one model; non-trivial = a failure with a part in process and a restore'),
     'floors': {'quick': {'accounting_checks': 50000, 'transitions': 2000, 'failures_with_part_in_process': 50,
                          'failures_with_finished_part_held': 10, 'failures_while_already_down': 20,
                          'work_orders_judged': 100},
@@ -21,7 +22,7 @@ SPEC = {
                     'absolute uptime of late-created machines is not judged here (C20)'],
     'timeout_s': {'quick': 900, 'thorough': 7200},
 }
-MONITORS = ('machine',)
+MONITORS = ('machine', 'lostwake')
 
 
 def nontrivial(f):
